@@ -7,18 +7,21 @@ TAGS = [0, 4, 10, 10, 10, 16]
 # 12-octet salt, NULL auth whose tag length 16 or 8 is the GCM tag length) — used by the families that run in the
 # OpenSSL configuration, where those cipher types exist
 AEAD = False
+AEAD_MIX = None        # True: the SRTP and SRTCP halves of every generated GCM policy have different key sizes
 
 def gcm_cp(bits=128, tag=16, serv=3):
     return cp(cipher=GCM128 if bits == 128 else GCM256, keylen=28 if bits == 128 else 44, auth=NULL_AUTH, authkeylen=0, taglen=tag, serv=serv)
 
 def with_aead(fn, *a, **kw):
-    """run a script generator with AEAD mode on"""
-    global AEAD
+    """run a script generator with AEAD mode on (keyword aead_mix=True: key sizes of the two halves always differ)"""
+    global AEAD, AEAD_MIX
     AEAD = True
+    AEAD_MIX = kw.pop("aead_mix", None)
     try:
         return fn(*a, **kw)
     finally:
         AEAD = False
+        AEAD_MIX = None
 
 def rand_key(rng, n):
     return bytes(rng.randrange(256) for _ in range(n))
@@ -78,7 +81,8 @@ def rand_policy(rng, ssrc=None, ssrc_type=SSRC_SPECIFIC, valid=True, mki=None, s
         bits = rng.choice([128, 128, 256])
         rtp = gcm_cp(bits, rng.choice([16, 16, 8]), rtp[5])
         # unencrypted SRTCP (RFC 7714 9.3: whole packet as AAD, bare tag) gets as much weight as encrypted SRTCP
-        rtcp = gcm_cp(bits if rng.random() < 0.75 else (384 - bits), rng.choice([16, 16, 8]), rng.choice([3, 3, 2, 2, 0, 1]))   # sometimes GCM-128 next to GCM-256
+        mixed = AEAD_MIX if AEAD_MIX is not None else rng.random() < 0.25
+        rtcp = gcm_cp((384 - bits) if mixed else bits, rng.choice([16, 16, 8]), rng.choice([3, 3, 2, 2, 0, 1]))   # sometimes GCM-128 next to GCM-256
     if safe_tags:
         # tag lengths above SRTP_MAX_TAG_LEN and key lengths above 256 are exercised by C10 only
         rtp = rtp[:4] + (min(rtp[4], 16),) + rtp[5:]
